@@ -370,8 +370,22 @@ def b_dtype(kind, square=False, order3=False):
             X = src.r(*shape) + 1j * src.r(*shape)
         else:
             X = src.q(*shape)
-        return {"X": X, "flag": src.i(0, 1), "R": src.i(1, 3)}
+        return {"X": X, "flag": src.i(0, 1), "R": src.i(1, 3), "by_keyword": src.pick([False, False, True])}
     return b
+
+
+def _call1(f, X, p, *a, **kw):
+    """Call f with X as its first parameter - positionally, or (one member in three) by the parameter's NAME: argument
+    validation must not depend on the calling convention."""
+    if p.get("by_keyword"):
+        import inspect
+        try:
+            first = next(iter(inspect.signature(f).parameters))
+        except (TypeError, ValueError, StopIteration):
+            first = None
+        if first is not None and not a:
+            return f(**{first: X}, **kw)
+    return f(X, *a, **kw)
 
 
 def _arg(kind, X):
@@ -391,19 +405,19 @@ def _nelem_params(X, kind):
     return int(np.prod(X.shape[:2])) if kind == "sparse" else int(X.size)
 
 
-_dt("induced_matrix_norm_1", lambda X, p: L.utils.induced_matrix_norm_1(X))
-_dt("induced_matrix_norm_inf", lambda X, p: L.utils.induced_matrix_norm_inf(X))
-_dt("spectral_norm_2", lambda X, p: L.utils.spectral_norm_2(X))
+_dt("induced_matrix_norm_1", lambda X, p: _call1(L.utils.induced_matrix_norm_1, X, p))
+_dt("induced_matrix_norm_inf", lambda X, p: _call1(L.utils.induced_matrix_norm_inf, X, p))
+_dt("spectral_norm_2", lambda X, p: _call1(L.utils.spectral_norm_2, X, p))
 _dt("matrix_norm(ord=1)", lambda X, p: L.utils.matrix_norm(X, 1))
 _dt("matrix_norm(ord=2)", lambda X, p: L.utils.matrix_norm(X, 2))
 _dt("matrix_norm(ord=np.inf)", lambda X, p: L.utils.matrix_norm(X, np.inf))
 _dt("matrix_norm(ord='inf')", lambda X, p: L.utils.matrix_norm(X, "inf"))
-_dt("real_expand", lambda X, p: L.utils.real_expand(X))
-_dt("quaternion_to_complex_adjoint", lambda X, p: L.utils.quaternion_to_complex_adjoint(X), square=True)
-_dt("quaternion_lu", lambda X, p: L.LU.quaternion_lu(X, return_p=bool(p["flag"])))
-_dt("quaternion_triu", lambda X, p: L.LU.quaternion_triu(X, k=p["flag"]))
-_dt("quaternion_tril", lambda X, p: L.LU.quaternion_tril(X, k=-p["flag"]))
-_dt("quaternion_modulus", lambda X, p: L.LU.quaternion_modulus(X))
+_dt("real_expand", lambda X, p: _call1(L.utils.real_expand, X, p))
+_dt("quaternion_to_complex_adjoint", lambda X, p: _call1(L.utils.quaternion_to_complex_adjoint, X, p), square=True)
+_dt("quaternion_lu", lambda X, p: _call1(L.LU.quaternion_lu, X, p, return_p=bool(p["flag"])))
+_dt("quaternion_triu", lambda X, p: _call1(L.LU.quaternion_triu, X, p, k=p["flag"]))
+_dt("quaternion_tril", lambda X, p: _call1(L.LU.quaternion_tril, X, p, k=-p["flag"]))
+_dt("quaternion_modulus", lambda X, p: _call1(L.LU.quaternion_modulus, X, p))
 _dt("qr_qua", lambda X, p: L.qsvd.qr_qua(X))
 _dt("classical_qsvd", lambda X, p: L.qsvd.classical_qsvd(X, p["R"]))
 _dt("classical_qsvd_full", lambda X, p: L.qsvd.classical_qsvd_full(X))
